@@ -21,7 +21,7 @@ import (
 
 var dmxKeyFns = []string{"src", "dst", "id", "const", "names"}
 
-var dmxShapes = []string{"", "", "", "nobody", "emptybody"}
+var dmxShapes = []string{"", "", "", "nobody", "emptybody", "reset", "trailer", "status", "bodyonly"}
 var dmxReadErrs = []string{"", "eof", "wrapeof", "canceled", "wrapcanceled"}
 var dmxCtxErrs = []string{"", "", "deadline", "wrapdeadline", "wrapcanceled"}
 
@@ -333,7 +333,7 @@ func dmxScenarios() []dmxScenario {
 	}
 	// 8. envelope shapes: no body, a body of zero bytes, the all-default envelope, on every key function
 	for _, kf := range dmxKeyFns {
-		for _, shape := range []string{"nobody", "emptybody", "zero"} {
+		for _, shape := range []string{"nobody", "emptybody", "zero", "reset", "trailer", "status", "bodyonly"} {
 			wshape := shape
 			if shape == "zero" { // the all-default envelope has no identity: once per scenario
 				wshape = "nobody"
@@ -343,6 +343,14 @@ func dmxScenarios() []dmxScenario {
 			base := dmxScenario{KeyFn: kf, Acts: acts, Tags: []string{"shapes", "shape=" + shape}}
 			out = append(out, base)
 			out = append(out, dmxInsertEach(base, DAct{Op: "cancelkey", K: 1}, "cancel-each-step")...)
+			// the shaped envelope as the FIRST envelope of a key that was used and cancelled, and of a key never used
+			// (every envelope read for a key without a live connection opens and announces one and is handed over)
+			if shape != "zero" {
+				out = append(out, dmxScenario{KeyFn: kf, Acts: []DAct{{Op: "deliver", K: 1, V: 311}, {Op: "read", C: 0}, {Op: "cancelkey", K: 1},
+					{Op: "deliver", K: 1, V: 312, S: shape}, {Op: "read", C: 1}, {Op: "deliver", K: 2, V: 313, S: shape}, {Op: "read", C: 2},
+					{Op: "deliver", K: 1, V: 314, S: wshape}, {Op: "read", C: 1}},
+					Tags: []string{"shapes", "shape=" + shape, "first-after-cancel"}})
+			}
 		}
 	}
 	// 9. the shared Read failing with each kind of error (plain, io.EOF, wrapped), calls ending with each kind of context error
